@@ -178,6 +178,86 @@ def check_rep(ctx: Ctx, c: Dict[str, Any]) -> None:
         dv = comps_of(denormalize_flow(const_field(g, reps[key]), align_corners=acf))
         if dv is None or max_err(dv[0], reps["grid"]) > TOL * scale:
             bad("denormalize_flow", f"{key} -> grid differs", frm=key)
+    # ... with the size given explicitly, as a tuple and as a float tensor the caller keeps using (must not be changed), and on an axis
+    # with exactly two samples (align_corners: 2 / (n - 1) = 2)
+    for acf, key in ((True, "cube_corners"), (False, "cube")):
+        v = const_field(g, reps["grid"])
+        sz_t = torch.tensor([float(n) for n in g.size()], dtype=v.dtype)
+        for form, sz in (("tuple", tuple(g.size())), ("tensor", sz_t), ("tensor again", sz_t)):
+            nv = comps_of(normalize_flow(v, size=sz, align_corners=acf))
+            if nv is None or max_err(nv[0], reps[key]) > TOL * scale:
+                bad("normalize_flow", f"grid -> {key} with size given as {form} differs", to=key, size_form=form)
+            dv = comps_of(denormalize_flow(const_field(g, reps[key]), size=sz, align_corners=acf))
+            if dv is None or max_err(dv[0], reps["grid"]) > TOL * scale:
+                bad("denormalize_flow", f"{key} -> grid with size given as {form} differs", frm=key, size_form=form)
+        if max_err(sz_t, [float(n) for n in g.size()]) > 0:
+            bad("normalize_flow", "changed the size tensor of its caller", what="mutates", to=key)
+        two = torch.tensor(reps["grid"], dtype=torch.float32).reshape(1, D, *([1] * D)).expand(1, D, *([2] * D)).contiguous()
+        nv = comps_of(normalize_flow(two, align_corners=acf))
+        e2 = [x_ * (2.0 if acf else 1.0) for x_ in reps["grid"]]
+        if nv is None or max_err(nv[0], e2) > TOL * scale:
+            bad("normalize_flow", f"on a grid with two samples per axis gives {None if nv is None else nv[0].tolist()}, expected {e2}", to=key, two=True)
+        dv = comps_of(denormalize_flow(two, align_corners=acf))
+        e2 = [x_ / (2.0 if acf else 1.0) for x_ in reps["grid"]]
+        if dv is None or max_err(dv[0], e2) > TOL * scale:
+            bad("denormalize_flow", f"on a grid with two samples per axis gives {None if dv is None else dv[0].tolist()}, expected {e2}", frm=key, two=True)
+    # SimpleITK images and files: vectors stored w.r.t. the requested axes (world when none is named) and read back as such
+    import os
+    import tempfile
+
+    import SimpleITK as sitk
+
+    def pix(im):
+        arr = torch.from_numpy(sitk.GetArrayFromImage(im)).double().reshape(-1, D)
+        if float((arr.max(dim=0).values - arr.min(dim=0).values).abs().max()) > TOL * scale:
+            return None
+        return arr[0]
+
+    for a in AXES:
+        f1 = FlowField(const_field(g, reps[a])[0], g, Axes(a))
+        for b in (None,) + tuple(AXES):
+            key = b or "world"
+            try:
+                im = f1.sitk() if b is None else f1.sitk(axes=Axes(b))
+                pv = pix(im)
+                if pv is None or max_err(pv, reps[key]) > TOL * scale:
+                    bad("FlowField.sitk", f"field in {a} axes exported with axes={b} holds vectors {None if pv is None else pv.tolist()}, expected {reps[key]}", frm=a, to=str(b))
+                    continue
+                back = FlowField.from_sitk(im) if b is None else FlowField.from_sitk(im, axes=Axes(b), align_corners=g.align_corners())
+                if back.axes() is not Axes(key):
+                    bad("FlowField.from_sitk", f"image imported with axes={b} is labelled {back.axes().value}", frm=a, to=str(b), what="label")
+                    continue
+                cw = comps_of(back.axes(Axes.WORLD).tensor().unsqueeze(0))
+                if cw is None or max_err(cw[0], reps["world"]) > TOL * scale:
+                    bad("FlowField.from_sitk", f"sitk(axes={b}) -> from_sitk(axes={b}) changes the world displacement", frm=a, to=str(b), what="world")
+            except Exception as ex:
+                bad("FlowField.sitk", f"raised {type(ex).__name__}: {ex}", exc=type(ex).__name__, frm=a, to=str(b))
+    a = AXES[sum(c["g"]["n"]) % len(AXES)]
+    f1 = FlowField(const_field(g, reps[a])[0], g, Axes(a))
+    tmpd = tempfile.mkdtemp(prefix="dvc10_")
+    try:
+        for j, b in enumerate((None,) + tuple(AXES)):
+            key = b or "world"
+            path = os.path.join(tmpd, f"f{j}" + (".mha", ".nrrd")[(j + len(c["g"]["n"])) % 2])
+            try:
+                if b is None:
+                    f1.write(path)
+                else:
+                    f1.write(path, axes=Axes(b))
+                pv = pix(sitk.ReadImage(path))
+                if pv is None or max_err(pv, reps[key]) > TOL * scale:
+                    bad("FlowField.write", f"field in {a} axes written with axes={b} stores vectors {None if pv is None else pv.tolist()}, expected {reps[key]}", frm=a, to=str(b), ext=path[-4:])
+                    continue
+                back = FlowField.read(path) if b is None else FlowField.read(path, axes=Axes(b), align_corners=g.align_corners())
+                cw = comps_of(back.axes(Axes.WORLD).tensor().unsqueeze(0))
+                if back.axes() is not Axes(key) or cw is None or max_err(cw[0], reps["world"]) > TOL * scale:
+                    bad("FlowField.read", f"write(axes={b}) -> read(axes={b}) changes the world displacement", frm=a, to=str(b), ext=path[-4:])
+            except Exception as ex:
+                bad("FlowField.write", f"raised {type(ex).__name__}: {str(ex)[:120]}", exc=type(ex).__name__, frm=a, to=str(b), ext=path[-4:])
+    finally:
+        import shutil
+
+        shutil.rmtree(tmpd, ignore_errors=True)
     ctx.count(key=json.dumps(["rep", c["g"], c["g2"], c["w"]]), nontrivial=True)
 
 
